@@ -61,7 +61,7 @@ fn canon_inv(r: Vec<dijkstra_spi::Spi>) -> Result<Canon, String> {
     Ok(v)
 }
 
-pub const FNS: [&str; 8] = ["all_pairs", "multi_source", "involving", "betweenness", "closeness", "all_pairs_target", "all_pairs_cutoff_first", "multi_source_subset"];
+pub const FNS: [&str; 9] = ["all_pairs", "multi_source", "involving", "betweenness", "closeness", "all_pairs_target", "all_pairs_cutoff_first", "multi_source_subset", "involving_each"];
 
 fn call(g: &G, f: &str, weighted: bool) -> Result<Canon, String> {
     let names: Vec<i32> = g.get_all_node_names().into_iter().copied().collect();
@@ -69,6 +69,18 @@ fn call(g: &G, f: &str, weighted: bool) -> Result<Canon, String> {
         "all_pairs" => canon_ap(dijkstra::all_pairs(g, weighted, None, None, false, true)),
         "multi_source" => canon_ap(dijkstra::multi_source(g, weighted, names, None, None, false, true)),
         "involving" => canon_inv(dijkstra::get_all_shortest_paths_involving(g, *names.get(names.len() / 2).unwrap_or(&0), weighted)),
+        // every node as the intermediate one (small graphs only: each call is an all-pairs search)
+        "involving_each" => {
+            let mut all: Canon = vec![];
+            for x in names.iter().take(if names.len() <= 26 { 26 } else { 4 }) {
+                let mut part = canon_inv(dijkstra::get_all_shortest_paths_involving(g, *x, weighted))?;
+                for e in part.iter_mut() {
+                    e.3.push(vec![*x]); // tag the entries with the queried node
+                }
+                all.extend(part);
+            }
+            Ok(all)
+        }
         // option variants: the parallel closures have their own handling of target / cutoff / first_only
         "all_pairs_target" => canon_ap(dijkstra::all_pairs(g, weighted, names.get(names.len() / 3).copied(), None, false, true)),
         "all_pairs_cutoff_first" => canon_ap(dijkstra::all_pairs(g, weighted, None, Some(if weighted { 0.9 } else { 2.0 }), true, true)),
@@ -135,6 +147,25 @@ pub fn big_graphs(rng: &mut ChaCha8Rng, thorough: bool) -> Vec<(String, G, bool)
         let _ = g.add_edge(std::sync::Arc::new(ed));
     }
     out.push(("karate_weighted".into(), g, true));
+    // zero-weight edges and weights small enough to be absorbed (1 + 2^-60 == 1): distances that do not grow
+    // along a path, which a pruning comparison written with > instead of >= gets wrong
+    for (name, directed) in [("chain_zero", true), ("ring_tiny", false)] {
+        let n = 24;
+        let mut g = G::new(mk(directed, false).to_specs());
+        for u in 1..=n { g.add_node(mk_node((u, 0))); }
+        for u in 1..=n {
+            let v = if u == n { if directed { continue } else { 1 } } else { u + 1 };
+            let mut ed = (*mk_edge((u, v, 1, 0))).clone();
+            ed.weight = match u % 4 { 1 => if directed { 0.0 } else { 2.0f64.powi(-60) }, 2 => 1.0, 3 => 0.5, _ => 1.0 };
+            let _ = g.add_edge(std::sync::Arc::new(ed));
+        }
+        for (u, v, w) in [(1, 9, 2.5), (4, 15, 3.0), (10, 20, 2.0)] {
+            let mut ed = (*mk_edge((u, v, 1, 0))).clone();
+            ed.weight = w;
+            let _ = g.add_edge(std::sync::Arc::new(ed));
+        }
+        out.push((name.into(), g, true));
+    }
     // random graphs of all kinds, 21..60 nodes
     let count = if thorough { 16 } else { 5 };
     for i in 0..count {
